@@ -168,3 +168,462 @@ Proof.
   destruct (esrc e =? cur) eqn:E1; destruct (edst e =? cur) eqn:E2; cbn [app]; try apply Permutation_refl.
   exfalso. apply Z.eqb_eq in E1, E2. rewrite <- E2 in E1. apply Z.eqb_eq in E1. rewrite E1 in Hsl. discriminate Hsl.
 Qed.
+
+(** * Bindings of a whole single-hop pattern: operational reading versus declarative *)
+Definition gbind (h : hop) (step : list (Z * Z)) (st : store) (ec : env * Z) : list (env * Z) :=
+  map (fun ef => (fst ec ++ (match h_evar h with Some r => [(r, EEdge (fst ef))] | None => [] end)
+                         ++ [(np_var (h_to h), ENode (snd ef))], snd ef))
+      (filter (fun ef => first_label_ok st (h_to h) (snd ef)) step).
+Lemma obind_hop_gbind st h ec : obind_hop st h ec = gbind h (ostep st (h_dir h) (h_type h) (snd ec)) st ec.
+Proof. reflexivity. Qed.
+Lemma node_ok_split st np i :
+  (List.length (np_labels np) <= 1)%nat -> node_ok st np i = node_exists st i && first_label_ok st np i.
+Proof.
+  intros H. unfold node_ok, node_exists, first_label_ok.
+  destruct (np_labels np) as [|l [|l' r]]; cbn [forallb List.length] in *.
+  - destruct (get_node st i); reflexivity.
+  - destruct (get_node st i); [rewrite andb_true_r; reflexivity|reflexivity].
+  - lia.
+Qed.
+Lemma bind_hop_gbind st h en cur :
+  h_len h = HOne -> (List.length (np_labels (h_to h)) <= 1)%nat ->
+  bind_hop st h en cur = gbind h (dstep_live st (h_dir h) (h_type h) cur) st (en, cur).
+Proof.
+  intros Hl Hlab. unfold bind_hop, gbind, hop_ends, dstep_live. rewrite Hl.
+  rewrite filter_map_comm, map_map. cbn [fst snd].
+  rewrite filter_filter.
+  rewrite (filter_ext_in' (fun a => node_ok st (h_to h) (snd a))
+                          (fun a => node_exists st (snd a) && first_label_ok st (h_to h) (snd a)))
+    by (intros a _; apply node_ok_split; exact Hlab).
+  apply map_ext. intros [e f]. cbn [fst snd]. destruct (h_evar h); reflexivity.
+Qed.
+Lemma gbind_perm h s1 s2 st ec : Permutation s1 s2 -> Permutation (gbind h s1 st ec) (gbind h s2 st ec).
+Proof. intros H. unfold gbind. apply Permutation_map. apply Permutation_filter'. exact H. Qed.
+
+(** per-hop conditions *)
+Definition hop_core (st : store) (h : hop) : Prop :=
+  h_len h = HOne /\ (List.length (np_labels (h_to h)) <= 1)%nat /\ type_agree st (h_type h).
+Definition hop_noloop (st : store) (h : hop) : Prop :=
+  match h_dir h with
+  | Both => forallb (fun e => negb ((esrc e =? edst e) && type_eq (h_type h) (etype e))) (edges st) = true
+  | _ => True
+  end.
+
+Lemma hop_step_eq st h ec :
+  hop_core st h -> h_dir h <> Both -> obind_hop st h ec = bind_hop st h (fst ec) (snd ec).
+Proof.
+  intros (Hl & Hlab & Hty) Hd. rewrite obind_hop_gbind, (bind_hop_gbind st h _ _ Hl Hlab).
+  destruct ec as [en cur]. cbn [fst snd].
+  destruct (h_dir h) eqn:E; [rewrite (ostep_out st _ cur Hty)|rewrite (ostep_in st _ cur Hty)|congruence]; reflexivity.
+Qed.
+Lemma hop_step_perm st h ec :
+  hop_core st h -> hop_noloop st h -> Permutation (obind_hop st h ec) (bind_hop st h (fst ec) (snd ec)).
+Proof.
+  intros (Hl & Hlab & Hty) Hn. rewrite obind_hop_gbind, (bind_hop_gbind st h _ _ Hl Hlab).
+  destruct ec as [en cur]. cbn [fst snd]. unfold hop_noloop in Hn.
+  destruct (h_dir h) eqn:E.
+  - rewrite (ostep_out st _ cur Hty). apply Permutation_refl.
+  - rewrite (ostep_in st _ cur Hty). apply Permutation_refl.
+  - apply gbind_perm. apply ostep_both; assumption.
+Qed.
+
+Lemma obind_hops_eq st hs : forall acc,
+  Forall (fun h => hop_core st h /\ h_dir h <> Both) hs -> obind_hops st hs acc = bind_hops st hs acc.
+Proof.
+  induction hs as [|h hs IH]; intros acc H; [reflexivity|].
+  inversion H as [|? ? [Hc Hd] Hr]; subst. cbn [obind_hops bind_hops]. rewrite IH by exact Hr.
+  f_equal. apply flat_map_ext_in. intros ec _. apply hop_step_eq; assumption.
+Qed.
+Lemma obind_hops_perm st hs : forall acc acc',
+  Forall (fun h => hop_core st h /\ hop_noloop st h) hs -> Permutation acc acc' ->
+  Permutation (obind_hops st hs acc) (bind_hops st hs acc').
+Proof.
+  induction hs as [|h hs IH]; intros acc acc' H Hp; [exact Hp|].
+  inversion H as [|? ? [Hc Hn] Hr]; subst. cbn [obind_hops bind_hops]. apply IH; [exact Hr|].
+  eapply Permutation_trans; [apply Permutation_flat_map; exact Hp|].
+  apply Permutation_flat_map_pw. intros ec _. apply hop_step_perm; assumption.
+Qed.
+
+(** the boolean conditions of PatSpec give the per-hop conditions *)
+Lemma hops_core_of st p :
+  store_ok st -> single_hops p = true -> single_labels p = true -> no_type_case st p = true ->
+  Forall (hop_core st) (p_hops p).
+Proof.
+  unfold single_hops, single_labels, no_type_case, pat_npats. cbn [forallb].
+  intros Hok H1 H2 H3. apply andb_true_iff in H2. destruct H2 as [_ H2].
+  rewrite forallb_forall in H1, H3. rewrite forallb_forall in H2.
+  apply Forall_forall. intros h Hh. repeat split.
+  - specialize (H1 h Hh). destruct (h_len h); [reflexivity|discriminate].
+  - specialize (H2 (h_to h) (in_map h_to _ _ Hh)). apply Nat.leb_le. exact H2.
+  - apply type_agree_of; [exact Hok|]. exact (H3 h Hh).
+Qed.
+Lemma start_filter_eq p n :
+  single_labels p = true ->
+  forallb (has_label n) (np_labels (p_start p)) = match np_labels (p_start p) with [] => true | l :: _ => has_label n l end.
+Proof.
+  unfold single_labels, pat_npats. cbn [forallb]. intros H. apply andb_true_iff in H. destruct H as [H _].
+  destruct (np_labels (p_start p)) as [|l [|l' r]]; cbn [forallb List.length] in *; [reflexivity|apply andb_true_r|discriminate].
+Qed.
+
+Theorem obindings_directed st p :
+  store_ok st -> single_hops p = true -> single_labels p = true -> no_type_case st p = true ->
+  directed p = true -> obindings st p = bindings st p.
+Proof.
+  intros Hok H1 H2 H3 H4. unfold obindings, bindings. f_equal.
+  rewrite (filter_ext_in' _ (fun n => forallb (has_label n) (np_labels (p_start p))))
+    by (intros n _; symmetry; apply start_filter_eq; exact H2).
+  apply obind_hops_eq.
+  pose proof (hops_core_of st p Hok H1 H2 H3) as Hc.
+  unfold directed in H4. rewrite forallb_forall in H4. rewrite Forall_forall in Hc |- *.
+  intros h Hh. split; [apply Hc; exact Hh|]. specialize (H4 h Hh). destruct (h_dir h); congruence.
+Qed.
+Theorem obindings_perm st p :
+  store_ok st -> single_hops p = true -> single_labels p = true -> no_type_case st p = true ->
+  no_both_selfloop st p = true -> Permutation (obindings st p) (bindings st p).
+Proof.
+  intros Hok H1 H2 H3 H4. unfold obindings, bindings. apply Permutation_map.
+  rewrite (filter_ext_in' _ (fun n => forallb (has_label n) (np_labels (p_start p))))
+    by (intros n _; symmetry; apply start_filter_eq; exact H2).
+  apply obind_hops_perm; [|apply Permutation_refl].
+  pose proof (hops_core_of st p Hok H1 H2 H3) as Hc.
+  unfold no_both_selfloop in H4. rewrite forallb_forall in H4. rewrite Forall_forall in Hc |- *.
+  intros h Hh. split; [apply Hc; exact Hh|]. specialize (H4 h Hh). unfold hop_noloop.
+  destruct (h_dir h); [exact I|exact I|exact H4].
+Qed.
+
+(** * The operators: Scan / Expand / hasLabel-Filter enumerate [obindings] *)
+Lemma rmapM_flat {A B} (f : A -> res (list B)) (g : A -> list B) (l : list A) :
+  (forall a, List.In a l -> f a = Ok (g a)) -> rmapM f l = Ok (flat_map g l).
+Proof.
+  induction l as [|a l IH]; intros H; [reflexivity|].
+  cbn [rmapM flat_map]. rewrite (H a (or_introl eq_refl)). cbn [rbind].
+  rewrite IH by (intros b Hb; apply H; right; exact Hb). reflexivity.
+Qed.
+Lemma pos_first_app_fresh x cs ec :
+  existsb (String.eqb x) cs = false -> String.eqb x ec = false ->
+  pos_first x (cs ++ [ec; x]) = Some (S (List.length cs)).
+Proof.
+  induction cs as [|c cs IH]; intros H1 H2.
+  - cbn. rewrite H2, String.eqb_refl. reflexivity.
+  - cbn [existsb] in H1. apply orb_false_iff in H1. destruct H1 as [H1 H1'].
+    cbn [app pos_first List.length]. rewrite H1, (IH H1' H2). reflexivity.
+Qed.
+Lemma pos_first_app_l x cs ds i : pos_first x cs = Some i -> pos_first x (cs ++ ds) = Some i.
+Proof.
+  revert i. induction cs as [|c cs IH]; intros i H; [discriminate H|].
+  cbn [app pos_first] in *. destruct (String.eqb x c); [exact H|].
+  destruct (pos_first x cs) as [j|]; [|discriminate H]. rewrite (IH j eq_refl). exact H.
+Qed.
+Lemma pos_last_app_last x cs ec : pos_last x (cs ++ [ec; x]) = Some (S (List.length cs)).
+Proof.
+  induction cs as [|c cs IH].
+  - cbn. rewrite String.eqb_refl. reflexivity.
+  - cbn [app pos_last List.length]. rewrite IH. reflexivity.
+Qed.
+Lemma nth_error_app_len {A} (r : list A) a b : nth_error (r ++ [a; b]) (S (List.length r)) = Some b.
+Proof. induction r as [|c r IH]; [reflexivity|exact IH]. Qed.
+Lemma combine_app_eq {A B} (a1 a2 : list A) (b1 b2 : list B) :
+  List.length a1 = List.length b1 -> combine (a1 ++ a2) (b1 ++ b2) = combine a1 b1 ++ combine a2 b2.
+Proof.
+  revert b1. induction a1 as [|x a1 IH]; intros [|y b1] H; try discriminate H; [reflexivity|].
+  cbn. rewrite IH by (cbn in H; lia). reflexivity.
+Qed.
+Lemma row_env_app cs r ec to e n :
+  List.length cs = List.length r ->
+  row_env (cs ++ [ec; to]) (r ++ [CEdge e; CNode n])
+  = row_env cs r ++ (if String.eqb ec anon then [] else [(ec, EEdge e)]) ++ (if String.eqb to anon then [] else [(to, ENode n)]).
+Proof.
+  intros H. unfold row_env. rewrite (combine_app_eq cs [ec; to] r [CEdge e; CNode n] H), flat_map_app.
+  f_equal. cbn. destruct (String.eqb ec anon), (String.eqb to anon); reflexivity.
+Qed.
+
+Lemma filter_true {A} (l : list A) : filter (fun _ => true) l = l.
+Proof. induction l as [|a l IH]; cbn; [reflexivity|rewrite IH; reflexivity]. Qed.
+
+(** a table whose column [x] (found by [pos_first]) holds node ids in every row *)
+Definition good (t : tbl) (x : string) (i : nat) : Prop :=
+  pos_first x (cols t) = Some i /\
+  forall r, List.In r (rows t) -> List.length (cols t) = List.length r /\ exists z, nth_error r i = Some (CNode z).
+Definition cur_of (i : nat) (r : row) : Z := match nth_error r i with Some (CNode z) => z | _ => 0 end.
+Definition abs (t : tbl) (i : nat) (r : row) : env * Z := (row_env (cols t) r, cur_of i r).
+
+Lemma src_of_good t x i r : good t x i -> List.In r (rows t) -> src_of (cols t) x r = Ok (cur_of i r).
+Proof.
+  intros [Hp Hr] Hin. destruct (Hr r Hin) as [_ [z Hz]]. unfold src_of, cur_of. rewrite Hp. cbn [of_opt rbind].
+  rewrite Hz. reflexivity.
+Qed.
+
+Definition hop_fresh (cs : list string) (h : hop) : Prop :=
+  existsb (String.eqb (np_var (h_to h))) cs = false /\
+  String.eqb (np_var (h_to h)) (edge_col (h_evar h)) = false /\
+  String.eqb (np_var (h_to h)) anon = false /\
+  match h_evar h with Some e => String.eqb e anon = false | None => True end.
+
+Lemma expand_sem st t x i h :
+  good t x i -> hop_fresh (cols t) h ->
+  let t' := mkT (cols t ++ [edge_col (h_evar h); np_var (h_to h)])
+                (flat_map (fun r => map (fun te => r ++ [CEdge (snd te); CNode (fst te)])
+                                        (neighbors st true (cur_of i r) (h_dir h) (h_type h))) (rows t)) in
+  expand_rows st true (cols t) x (h_dir h) (h_type h) (rows t) = Ok (rows t') /\
+  good t' (np_var (h_to h)) (S (List.length (cols t))) /\
+  map (abs t' (S (List.length (cols t)))) (rows t')
+  = flat_map (fun ec => map (fun ef => (fst ec ++ (match h_evar h with Some r => [(r, EEdge (fst ef))] | None => [] end)
+                                                ++ [(np_var (h_to h), ENode (snd ef))], snd ef))
+                            (ostep st (h_dir h) (h_type h) (snd ec)))
+             (map (abs t i) (rows t)).
+Proof.
+  intros Hg (Hf1 & Hf2 & Hf3 & Hf4) t'. split; [|split].
+  - unfold expand_rows. apply rmapM_flat. intros r Hr. rewrite (src_of_good t x i r Hg Hr). reflexivity.
+  - split.
+    + cbn [cols t' mkT]. apply pos_first_app_fresh; assumption.
+    + intros r' Hr'. cbn [rows t' mkT] in Hr'. apply in_flat_map in Hr'. destruct Hr' as (r & Hr & Hr').
+      apply in_map_iff in Hr'. destruct Hr' as (te & <- & _).
+      destruct Hg as [_ Hg]. destruct (Hg r Hr) as [Hlen _]. split.
+      * cbn [cols t' mkT]. rewrite !app_length. cbn. lia.
+      * exists (fst te). rewrite Hlen. apply nth_error_app_len.
+  - cbn [rows t' mkT]. rewrite map_flat_map, flat_map_map. apply flat_map_ext_in. intros r Hr.
+    unfold ostep. rewrite !map_map. apply map_ext. intros te. cbn [fst snd].
+    destruct Hg as [_ Hg]. destruct (Hg r Hr) as [Hlen _].
+    unfold abs at 1. cbn [cols t' mkT]. rewrite (row_env_app _ _ _ _ _ _ Hlen), Hf3. f_equal.
+    + unfold abs. cbn [fst]. f_equal. f_equal.
+      unfold edge_col. destruct (h_evar h) as [e|]; [rewrite Hf4; reflexivity|]. unfold anon. rewrite String.eqb_refl. reflexivity.
+    + unfold cur_of. rewrite Hlen, nth_error_app_len. reflexivity.
+Qed.
+
+Lemma haslabel_passes st cs r ec to e n l :
+  List.length cs = List.length r ->
+  passes_row st (cs ++ [ec; to]) (r ++ [CEdge e; CNode n]) (EHasLabel to l)
+  = match get_node st n with Some nd => has_label nd l | None => false end.
+Proof.
+  intros H. unfold passes_row, passes. cbn [eval]. unfold row_look. rewrite pos_last_app_last. cbn [obind].
+  rewrite H, nth_error_app_len. cbn [obind cell_labels cell_node_id].
+  destruct (get_node st n) as [nd|]; cbn [obind]; [|reflexivity].
+  unfold has_label. destruct (existsb (String.eqb l) (nlabels nd)); reflexivity.
+Qed.
+
+Lemma sem_ops_filter st e i :
+  sem_ops st (LFilter e i) = (do t <- sem_ops st i; Ok (filter_tbl (fun r => passes_row st (cols t) r e) t)).
+Proof. reflexivity. Qed.
+
+Lemma hop_sem st h x i input t :
+  sem_ops st input = Ok t -> good t x i -> h_len h = HOne -> hop_fresh (cols t) h ->
+  exists t', sem_ops st (hop_plan x h input) = Ok t' /\
+             cols t' = cols t ++ [edge_col (h_evar h); np_var (h_to h)] /\
+             good t' (np_var (h_to h)) (S (List.length (cols t))) /\
+             map (abs t' (S (List.length (cols t)))) (rows t') = flat_map (obind_hop st h) (map (abs t i) (rows t)).
+Proof.
+  intros Hs Hg Hl Hf.
+  destruct (expand_sem st t x i h Hg Hf) as (He & Hg' & Habs).
+  set (t1 := mkT (cols t ++ [edge_col (h_evar h); np_var (h_to h)])
+                 (flat_map (fun r => map (fun te => r ++ [CEdge (snd te); CNode (fst te)])
+                                         (neighbors st true (cur_of i r) (h_dir h) (h_type h))) (rows t))) in *.
+  assert (Hex : sem_ops st (LExpand x (np_var (h_to h)) (h_evar h) (h_dir h) (h_type h) 1 (Some 1%nat) input) = Ok t1).
+  { cbn [sem_ops]. rewrite Hs. cbn [rbind]. destruct Hg as [Hp _]. rewrite Hp. cbn [of_opt rbind is_single_hop].
+    rewrite He. reflexivity. }
+  unfold hop_plan. rewrite Hl.
+  destruct (np_labels (h_to h)) as [|l ls] eqn:Elab.
+  - exists t1. split; [exact Hex|]. split; [reflexivity|]. split; [exact Hg'|].
+    rewrite Habs. apply flat_map_ext_in. intros ec _. unfold obind_hop.
+    rewrite (filter_ext_in' _ (fun _ => true)); [|intros a _; unfold first_label_ok; rewrite Elab; reflexivity].
+    rewrite filter_true. reflexivity.
+  - set (keep := fun r => passes_row st (cols t1) r (EHasLabel (np_var (h_to h)) l)).
+    exists (filter_tbl keep t1). split; [rewrite sem_ops_filter, Hex; reflexivity|].
+    split; [reflexivity|]. split.
+    + destruct Hg' as [Hp Hr]. split; [exact Hp|]. intros r Hr'. cbn [filter_tbl rows mkT] in Hr'.
+      apply filter_In in Hr'. apply Hr. apply Hr'.
+    + cbn [filter_tbl rows mkT cols]. 
+      (* filter commutes with the abstraction *)
+      assert (Hk : forall r, List.In r (rows t1) ->
+                   keep r = first_label_ok st (h_to h) (snd (abs t1 (S (List.length (cols t))) r))).
+      { intros r' Hr'. cbn [rows t1 mkT] in Hr'. apply in_flat_map in Hr'. destruct Hr' as (r & Hr & Hr').
+        apply in_map_iff in Hr'. destruct Hr' as (te & <- & _).
+        destruct Hg as [_ Hg]. destruct (Hg r Hr) as [Hlen _].
+        unfold keep. cbn [cols t1 mkT]. rewrite (haslabel_passes st _ _ _ _ _ _ l Hlen).
+        unfold abs, cur_of. cbn [snd]. rewrite Hlen, nth_error_app_len.
+        unfold first_label_ok. rewrite Elab. reflexivity. }
+      transitivity (filter (fun ec => first_label_ok st (h_to h) (snd ec)) (map (abs t1 (S (List.length (cols t)))) (rows t1))).
+      * rewrite filter_map_comm. f_equal. apply filter_ext_in'. exact Hk.
+      * rewrite Habs, filter_flat_map. apply flat_map_ext_in. intros ec _. unfold obind_hop.
+        rewrite filter_map_comm. reflexivity.
+Qed.
+
+Lemma hops_fresh_cons cs h r :
+  hops_fresh cs (h :: r) = true ->
+  hop_fresh cs h /\ hops_fresh (cs ++ [edge_col (h_evar h); np_var (h_to h)]) r = true.
+Proof.
+  cbn [hops_fresh]. intros H.
+  repeat (apply andb_true_iff in H; destruct H as [H ?]).
+  repeat match goal with Hn : negb _ = true |- _ => apply negb_true_iff in Hn end.
+  split; [|assumption]. unfold hop_fresh. repeat split; try assumption.
+  destruct (h_evar h); [|exact I].
+  match goal with Hx : (_ && _)%bool = true |- _ => apply andb_true_iff in Hx; destruct Hx as [Hx _]; apply negb_true_iff in Hx; exact Hx end.
+Qed.
+
+Lemma hops_sem st hs : forall x i input t,
+  sem_ops st input = Ok t -> good t x i ->
+  Forall (fun h => h_len h = HOne) hs -> hops_fresh (cols t) hs = true ->
+  exists t' x' i', sem_ops st (hops_plan x hs input) = Ok t' /\ good t' x' i' /\
+                   map (abs t' i') (rows t') = obind_hops st hs (map (abs t i) (rows t)).
+Proof.
+  induction hs as [|h hs IH]; intros x i input t Hs Hg Hl Hf.
+  - exists t, x, i. split; [exact Hs|split; [exact Hg|reflexivity]].
+  - inversion Hl as [|? ? Hl1 Hl2]; subst.
+    destruct (hops_fresh_cons _ _ _ Hf) as [Hf1 Hf2].
+    destruct (hop_sem st h x i input t Hs Hg Hl1 Hf1) as (t1 & Hs1 & Hc1 & Hg1 & Ha1).
+    rewrite <- Hc1 in Hf2.
+    destruct (IH (np_var (h_to h)) (S (List.length (cols t))) (hop_plan x h input) t1 Hs1 Hg1 Hl2 Hf2)
+      as (t' & x' & i' & Hs' & Hg' & Ha').
+    exists t', x', i'. split; [exact Hs'|]. split; [exact Hg'|].
+    cbn [obind_hops]. rewrite <- Ha1. exact Ha'.
+Qed.
+
+Lemma single_hops_forall p : single_hops p = true -> Forall (fun h => h_len h = HOne) (p_hops p).
+Proof.
+  unfold single_hops. intros H. rewrite forallb_forall in H. apply Forall_forall. intros h Hh.
+  specialize (H h Hh). destruct (h_len h); [reflexivity|discriminate].
+Qed.
+
+(** the operators enumerate the operational bindings, in order — no exclusion of any defect class *)
+Theorem chain_obindings st p :
+  single_hops p = true -> pat_fresh p = true ->
+  exists t, sem_ops st (chain_plan p) = Ok t /\ tbl_envs t = obindings st p.
+Proof.
+  intros H1 Hf. unfold pat_fresh in Hf. apply andb_true_iff in Hf. destruct Hf as [Hx Hf].
+  apply negb_true_iff in Hx.
+  set (x := np_var (p_start p)) in *.
+  set (label := match np_labels (p_start p) with [] => None | l :: _ => Some l end).
+  set (t0 := mkT [x] (scan_rows st label)).
+  assert (Hg0 : good t0 x 0).
+  { split; [cbn; rewrite String.eqb_refl; reflexivity|].
+    intros r Hr. cbn [rows t0 mkT] in Hr. unfold scan_rows in Hr. apply in_map_iff in Hr.
+    destruct Hr as (n & <- & _). split; [reflexivity|]. exists (nid n). reflexivity. }
+  destruct (hops_sem st (p_hops p) x 0%nat (LScan x label) t0 eq_refl Hg0 (single_hops_forall p H1) Hf)
+    as (t' & x' & i' & Hs' & Hg' & Ha').
+  exists t'. split; [exact Hs'|].
+  unfold tbl_envs, obindings.
+  transitivity (map fst (map (abs t' i') (rows t'))); [rewrite map_map; reflexivity|].
+  rewrite Ha'. f_equal. f_equal.
+  cbn [rows t0 mkT]. unfold scan_rows. rewrite map_map.
+  rewrite (filter_ext_in' (fun n => match np_labels (p_start p) with [] => true | l :: _ => has_label n l end)
+                          (fun n => match label with None => true | Some l => has_label n l end)).
+  2:{ intros n _. unfold label. destruct (np_labels (p_start p)); reflexivity. }
+  apply map_ext. intros n. unfold abs, row_env, cur_of. cbn. fold x. rewrite Hx. reflexivity.
+Qed.
+
+Theorem chain_bindings_directed_l st p :
+  store_ok st -> single_hops p = true -> single_labels p = true -> pat_fresh p = true ->
+  no_type_case st p = true -> directed p = true ->
+  exists t, sem_ops st (chain_plan p) = Ok t /\ tbl_envs t = bindings st p.
+Proof.
+  intros Hok H1 H2 Hf H3 H4. destruct (chain_obindings st p H1 Hf) as (t & Hs & He).
+  exists t. split; [exact Hs|]. rewrite He. apply obindings_directed; assumption.
+Qed.
+Theorem chain_bindings_l st p :
+  store_ok st -> single_hops p = true -> single_labels p = true -> pat_fresh p = true ->
+  no_type_case st p = true -> no_both_selfloop st p = true ->
+  exists t, sem_ops st (chain_plan p) = Ok t /\ Permutation (tbl_envs t) (bindings st p).
+Proof.
+  intros Hok H1 H2 Hf H3 H4. destruct (chain_obindings st p H1 Hf) as (t & Hs & He).
+  exists t. split; [exact Hs|]. rewrite He. apply obindings_perm; assumption.
+Qed.
+
+(** * Refutations: the defect classes are real (witnesses are also in the harness corpus) *)
+Local Open Scope string_scope.
+Definition nd (i : Z) (ls : list string) (ps : list (string * val)) : node := mkNode i ls ps.
+Definition ed (i s d : Z) (t : string) (ps : list (string * val)) : edge := mkEdge i s d t ps.
+Definition st_of (ns : list node) (es : list edge) : store := mkStore ns es [] [].
+Definition hop1 (d : dir) (ty : option string) (ev : option string) (to : string) : hop := mkHop d ty ev HOne (mkNP to []).
+Definition q_plain (p : pattern) (items : list lexpr) : query := mkQ p None (RPlain items false) [] None None.
+
+Definition w_k2_st := st_of [nd 0 ["A"] [("u", VInt 100)]; nd 1 ["A"] [("u", VInt 101)]] [ed 0 0 1 "KNOWS" [("eu", VInt 500)]].
+Definition w_k2_q := q_plain (mkPat (mkNP "a" []) [hop1 Out (Some "knows") (Some "r") "b"]) [EVar "a"; EVar "r"; EVar "b"].
+Lemma type_case_refuted_l : exists st q,
+  k2_type_case st q = true /\ plan_rows st (gql_plan_of q) <> answer st q /\ plan_rows st (cypher_plan_of q) <> answer st q.
+Proof. exists w_k2_st, w_k2_q. split; [reflexivity|]. split; intro H; vm_compute in H; discriminate H. Qed.
+
+Definition w_k3_st := st_of [nd 0 ["A"] [("u", VInt 100)]] [ed 0 0 0 "R" [("eu", VInt 500)]].
+Definition w_k3_q := q_plain (mkPat (mkNP "a" []) [hop1 Both None (Some "r") "b"]) [EVar "a"; EVar "r"; EVar "b"].
+Lemma both_selfloop_refuted_l : exists st q,
+  k3_both_selfloop st q = true /\ plan_rows st (gql_plan_of q) <> answer st q /\ plan_rows st (cypher_plan_of q) <> answer st q.
+Proof. exists w_k3_st, w_k3_q. split; [reflexivity|]. split; intro H; vm_compute in H; discriminate H. Qed.
+
+Definition w_chain_st (n : nat) : store :=
+  st_of (map (fun i => nd (Z.of_nat i) ["N"] [("u", VInt (100 + Z.of_nat i))]) (seq 0 n))
+        (map (fun i => ed (Z.of_nat i) (Z.of_nat i) (Z.of_nat i + 1) "NEXT" [("eu", VInt (500 + Z.of_nat i))]) (seq 0 (n - 1))).
+Definition w_k1_q := q_plain (mkPat (mkNP "a" []) [mkHop Out (Some "NEXT") None (HVar 1 None) (mkNP "b" [])]) [EVar "a"; EVar "b"].
+(** Cypher keeps "no maximum" and the planner turns it into min+10; the GQL translator drops the
+    star altogether (its plan is the single-hop one) *)
+Definition w_k1_gql_plan : lop :=
+  LReturn (ret_items [EVar "a"; EVar "b"]) false (LExpand "a" "b" None Out (Some "NEXT") 1 (Some 1%nat) (LScan "a" None)).
+Lemma unbounded_refuted_l : exists st q,
+  k1_unbounded q = true /\ plan_rows st (cypher_plan_of q) <> answer st q /\ plan_rows st w_k1_gql_plan <> answer st q.
+Proof. exists (w_chain_st 14), w_k1_q. split; [reflexivity|]. split; intro H; vm_compute in H; discriminate H. Qed.
+
+Definition w_k4_q := q_plain (mkPat (mkNP "a" []) [mkHop Out (Some "NEXT") None (HVar 0 (Some 1%nat)) (mkNP "b" [])]) [EVar "a"; EVar "b"].
+Lemma zero_hops_refuted_l : exists st q,
+  k4_zero_hops q = true /\ plan_rows st (gql_plan_of q) <> answer st q /\ plan_rows st (cypher_plan_of q) <> answer st q.
+Proof. exists (w_chain_st 3), w_k4_q. split; [reflexivity|]. split; intro H; vm_compute in H; discriminate H. Qed.
+
+Definition w_small_st := st_of
+  [nd 0 ["A"] [("u", VInt 100); ("w", VInt 70)]; nd 1 ["A"; "B"] [("u", VInt 101); ("w", VInt 71)]; nd 2 ["B"] [("u", VInt 102)]]
+  [ed 0 0 1 "R" [("eu", VInt 500); ("w", VInt 1)]; ed 1 0 2 "R" [("eu", VInt 501); ("w", VInt 2)]; ed 2 1 2 "R" [("eu", VInt 502); ("w", VInt 3)]].
+Definition w_base_pat := mkPat (mkNP "a" []) [hop1 Out (Some "R") (Some "r") "b"].
+Definition w_k5_q := mkQ w_base_pat None (RPlain [EVar "a"] true) [] None None.
+Lemma return_distinct_refuted_l : exists st q,
+  k5_return_distinct q = true /\ plan_rows st (gql_plan_of q) <> answer st q /\ plan_rows st (cypher_plan_of q) <> answer st q.
+Proof. exists w_small_st, w_k5_q. split; [reflexivity|]. split; intro H; vm_compute in H; discriminate H. Qed.
+
+Definition w_k6_q := mkQ w_base_pat None (RPlain [EProp "a" "u"; EVar "b"] false)
+                         [OEnv (EProp "a" "u") true; OEnv (EProp "r" "eu") true] None (Some 1%nat).
+Lemma gql_limit_before_order_refuted_l : exists st q,
+  k6_gql_limit_first LGql q = true /\ plan_rows st (gql_plan_of q) <> answer st q.
+Proof. exists w_small_st, w_k6_q. split; [reflexivity|]. intro H; vm_compute in H; discriminate H. Qed.
+
+Definition w_k7_q := q_plain (mkPat (mkNP "a" ["A"; "B"]) []) [EVar "a"].
+Lemma multi_label_refuted_l : exists st q,
+  k7_multi_label q = true /\ plan_rows st (gql_plan_of q) <> answer st q /\ plan_rows st (cypher_plan_of q) <> answer st q.
+Proof. exists w_small_st, w_k7_q. split; [reflexivity|]. split; intro H; vm_compute in H; discriminate H. Qed.
+
+Definition w_k9_q := mkQ (mkPat (mkNP "a" ["A"]) []) None (RPlain [EVar "a"] false) [OEnv (EProp "a" "u") false] None None.
+Lemma cypher_order_above_return_refuted_l : exists st q,
+  k9_cypher_order_cols LCypher q = true /\ plan_rows st (cypher_plan_of q) <> answer st q /\ plan_rows st (gql_plan_of q) = answer st q.
+Proof. exists w_small_st, w_k9_q. split; [reflexivity|]. split; [intro H; vm_compute in H; discriminate H|reflexivity]. Qed.
+
+Definition w_k10_q := mkQ w_base_pat None (RPlain [EProp "r" "w"] false)
+                          [OEnv (EProp "a" "u") false; OEnv (EProp "r" "eu") false] None None.
+Lemma edge_prop_after_sort_refuted_l : exists st q,
+  k10_edge_prop_materialised q = true /\ plan_rows st (gql_plan_of q) <> answer st q.
+Proof. exists w_small_st, w_k10_q. split; [reflexivity|]. intro H; vm_compute in H; discriminate H. Qed.
+
+Definition w_agg_st := st_of
+  [nd 0 ["A"] [("u", VInt 100); ("x", VStr "b"); ("y", VInt 5)]; nd 1 ["A"] [("u", VInt 101); ("x", VStr "a")];
+   nd 2 ["B"] [("u", VInt 102); ("x", VFlt 1 1); ("y", VInt 9)]]
+  [ed 0 0 1 "R" [("eu", VInt 500); ("w", VInt 1)]; ed 1 1 2 "R" [("eu", VInt 501); ("w", VInt 2)]].
+Definition w_single := mkPat (mkNP "a" ["A"]) [].
+Definition w_k12_q := mkQ w_single None (RAgg [] [mkAgg ACountNN (Some (EProp "a" "y")) false None]) [] None None.
+(** the Cypher translator emits Count (count-star semantics) where GQL emits CountNonNull *)
+Definition w_k12_cypher_plan : lop := LAggregate [] [mkAgg ACount (Some (EProp "a" "y")) false None] (chain_plan w_single).
+Lemma cypher_count_refuted_l : exists st q,
+  k12_cypher_count LCypher q = true /\ plan_rows st w_k12_cypher_plan <> answer st q /\ plan_rows st (gql_plan_of q) = answer st q.
+Proof. exists w_agg_st, w_k12_q. split; [reflexivity|]. split; [intro H; vm_compute in H; discriminate H|reflexivity]. Qed.
+
+Definition w_k13_q := mkQ w_single None (RAgg [] [mkAgg AMin (Some (EProp "a" "x")) false None]) [] None None.
+Lemma typed_result_refuted_l : exists st q,
+  k13_typed_result st q = true /\ plan_rows st (gql_plan_of q) <> answer st q /\ plan_rows st (cypher_plan_of q) <> answer st q.
+Proof. exists w_agg_st, w_k13_q. split; [reflexivity|]. split; intro H; vm_compute in H; discriminate H. Qed.
+
+(** the pre-df57ccb FilterOperator: a filter stacked on a filter resurrects rows the inner one removed *)
+Lemma filter_stack_pre_refuted_l : exists (rows : list row) (p1 p2 : row -> bool),
+  chunk_pre_rows (filter_chunk_pre p2 (filter_chunk_pre p1 (mkChunkPre rows None)))
+  <> filter (fun r => p1 r && p2 r) rows.
+Proof.
+  exists [[CNode 0]; [CNode 1]],
+         (fun r => match r with [CNode 1] => true | _ => false end),
+         (fun r => match r with [CNode 0] => true | _ => false end).
+  intro H. vm_compute in H. discriminate H.
+Qed.
+(** the repaired operator composes *)
+Lemma filter_stack_l : forall t p1 p2,
+  rows (filter_tbl p2 (filter_tbl p1 t)) = filter (fun r => p1 r && p2 r) (rows t).
+Proof. intros t p1 p2. cbn [filter_tbl rows mkT cols]. apply filter_filter. Qed.
+Local Close Scope string_scope.
